@@ -25,26 +25,41 @@ def write_root():
 
 
 def setup():
-    """build everything once from files on disk: library, Lean project, harnesses"""
+    """warm every cache from the files on disk: library, translators, Lean project, harnesses.
+
+    Every check re-runs its own translators and re-proves its own modules, so a failure here is reported but only a
+    failing library build is fatal."""
     ctx = vlib.Ctx("C00", "quick", 0)
     ctx.log("building library from", vlib.REPO)
     ctx.build_lib()
-    # translators first (Gen/*.lean), then the whole Lean project
+    rc = 0
     for f in sorted((vlib.ROOT / "tools").glob("gen_*.py")):
-        mod = importlib.import_module(f.stem)
-        if hasattr(mod, "generate"):
-            ctx.log("translator", f.name)
-            mod.generate(ctx)
+        try:
+            mod = importlib.import_module(f.stem)
+            if hasattr(mod, "generate"):
+                ctx.log("translator", f.name)
+                mod.generate(ctx)
+        except Exception as e:                      # surfaces again, as a broken obligation, in the check that needs it
+            ctx.log("translator", f.name, "FAILED:", str(e)[:300])
     write_root()
     ok, out = ctx.lake_build([])
     if not ok:
-        print(out[-6000:])
-        return 1
+        print(out[-3000:])
+        ctx.log("lake build of the whole project failed; building module by module")
+        for sub in ("Properties",):
+            for f in sorted((vlib.LEAN / "PhreeqcVerif" / sub).glob("*.lean")):
+                ok1, _ = ctx.lake_build([f"PhreeqcVerif.{sub}.{f.stem}"])
+                ctx.log(f"  PhreeqcVerif.{sub}.{f.stem}:", "ok" if ok1 else "FAILED")
+        ok2, _ = ctx.lake_build(["pmodel"])
+        ctx.log("  pmodel:", "ok" if ok2 else "FAILED")
     for f in sorted(vlib.HARNESS.glob("ph_*.cpp")):
         ctx.log("harness", f.name)
-        ctx.build_harness(f.stem)
+        try:
+            ctx.build_harness(f.stem)
+        except Exception as e:
+            ctx.log("harness", f.name, "FAILED:", str(e)[:300])
     ctx.log("setup done")
-    return 0
+    return rc
 
 
 def main():
